@@ -718,9 +718,10 @@ func (f *frame) execConvert(x *ssa.Convert, g Term, st *State) error {
 	case tb != nil && tb.Info()&types.IsString != 0:
 		// string(bytes) / string(rune)
 		if _, ok := from.Underlying().(*types.Slice); ok {
-			s := vc.declare(f.name(x), SStr)
-			f.vals[x] = s
-			vc.assume(g, Eq(Term{app("slen_", s), SInt}, SLen(v)))
+			// the string is a function of the byte heap and the slice header (same bytes at the same
+			// place give the same string; equal content elsewhere is not identified: incomplete, not unsound)
+			f.set(x, vc.strOf(st, v))
+			vc.assume(g, Eq(Term{app("slen_", f.vals[x]), SInt}, SLen(v)))
 		} else {
 			f.setFresh(x, g, st.Alloc)
 		}
